@@ -107,7 +107,7 @@ def fmt_fact(f):
 
 
 class CFG:
-    def __init__(self, fn):
+    def __init__(self, fn, noreturn_call=None):
         self.fn = fn
         g = fn.cfg
         self.blocks = {b["id"]: b for b in g["blocks"]}
@@ -121,6 +121,8 @@ class CFG:
             for e in b["elems"]:
                 if isinstance(e, int) and fn.n(e)["k"] == "CXXThrowExpr":
                     is_throw = True
+                if isinstance(e, int) and noreturn_call is not None and fn.n(e)["k"] in CALLS and noreturn_call(fn.n(e)):
+                    is_throw = True      # a repo helper that always throws (e.g. throwReadError)
             if is_throw or b.get("noreturn"):
                 self.throws.add(bid)
                 self.succ[bid] = []
@@ -472,6 +474,24 @@ class Summaries:
                                 out.add(r)
         return out
 
+    def never_returns(self, fn):
+        """Every path of fn ends in a throw (helpers like throwReadError)."""
+        cache = self.__dict__.setdefault("_never", {})
+        if fn.key in cache:
+            return cache[fn.key]
+        cache[fn.key] = False
+        if not fn.cfg:
+            return False
+        g = CFG(fn, self.noreturn_call)
+        res = not any(p in g.reach and p not in g.throws for p in g.pred[g.exit])
+        res = res and any(b in g.reach for b in g.throws)
+        cache[fn.key] = res
+        return res
+
+    def noreturn_call(self, nd):
+        cs = self.F.callees(nd)
+        return bool(cs) and all(self.never_returns(c) for c in cs)
+
     def may_throw(self, fn):
         """Explicit `throw` reachable in fn or in a repo callee (ordinary errors only)."""
         if fn.key in self._throws:
@@ -527,7 +547,7 @@ class Engine:
     def cfg(self, fn):
         c = self.cfgs.get(fn.key)
         if c is None:
-            c = CFG(fn)
+            c = CFG(fn, self.S.noreturn_call)
             self.cfgs[fn.key] = c
         return c
 
